@@ -30,19 +30,22 @@ func Run(ctx *common.Ctx) {
 		nText, nParse = 2500, 3000
 	}
 	nHist, nNative, nBridge := 220, 150, 200
+	nMulti := 120
 	if ctx.Thorough() {
 		nHist, nNative, nBridge = 5000, 3000, 4000
+		nMulti = 2500
 	}
 	h.checkOjgTables()
 	h.textStream(nText)
 	h.specialStream()
 	h.parseStream(nParse)
+	h.multiStream(nMulti)
 	h.pathStream(nHist)
 	h.nativeStream(nNative)
 	h.bridgeStream(nBridge)
 	h.floatStream()
 	ctx.Meta.DistinctNontrivial = len(h.distinct)
-	ctx.Meta.Rule = "documents of depth <= 5 (null, booleans, int64 incl. the limits, json.Number integers and decimals, float64, strings: plain, needing quotes or escapes, control characters, non-ASCII incl. U+2028/U+2029/U+FFFD and 4-byte runes, long, token-like, invalid UTF-8; empty containers) written with 3 of 20 bag-write option sets each and parsed back through one of 6 entry points; documents spelled by the harness in SEN/JSON with random white space, quotes, escapes and duplicate keys; distinct = distinct (document, options) / texts"
+	ctx.Meta.Rule = "documents of depth <= 5 (null, booleans, int64 incl. the limits, json.Number integers and decimals, float64, strings: plain, needing quotes or escapes, control characters, non-ASCII incl. U+2028/U+2029/U+FFFD and 4-byte runes, long, token-like, invalid UTF-8; empty containers) written with 3 of 20 bag-write option sets each and parsed back through one of 6 entry points; documents spelled by the harness in SEN/JSON with random white space, quotes, escapes and duplicate keys; inputs with 0..4 such documents given to json-parse (string, octets, streams read in chunks of 1..9 bytes) with a function or channel receiver that keeps the bags; distinct = distinct (document, options) / texts"
 	header := "From Coq Require Import List ZArith NArith Strings.Byte String.\nFrom C18 Require Import Tables Model Spec ModelPath ModelBridge SpecPath Corr.\nImport ListNotations.\nOpen Scope Z_scope.\n"
 	footer := "Definition res := Eval vm_compute in check_all cases.\nPrint res.\nDefinition gcount := Eval vm_compute in guard_count cases.\nPrint gcount.\nDefinition outside_broken := Eval vm_compute in outside_guard_broken cases.\nPrint outside_broken.\n"
 	ctx.WriteShards("cases", header, "case", footer, h.terms, h.descs, 16)
